@@ -1,0 +1,111 @@
+//go:build verif
+
+package pppoe
+
+import (
+	"context"
+	"errors"
+	"net"
+	"sync"
+)
+
+// Hooks for the C04 runtime monitor (no PPPoE IP service without
+// authentication). Nothing here has protocol behaviour of its own: an
+// in-memory implementation of the package's rawSocket interface, wrappers that
+// run the real unexported loops, and read-only snapshots.
+
+// VerifC04Socket is an in-memory rawSocket: frames handed to Inject are
+// returned by recv in order, frames the server sends are kept for Drain.
+// Create it inside a testing/synctest bubble when virtual time is wanted (recv
+// then blocks durably on a bubbled channel).
+type VerifC04Socket struct {
+	in     chan []byte
+	mu     sync.Mutex
+	out    [][]byte
+	closed bool
+}
+
+// VerifC04NewSocket returns a socket with room for depth queued frames.
+func VerifC04NewSocket(depth int) *VerifC04Socket {
+	return &VerifC04Socket{in: make(chan []byte, depth)}
+}
+
+func (s *VerifC04Socket) open(iface string, etherType uint16) error { return nil }
+
+func (s *VerifC04Socket) close() error {
+	s.mu.Lock()
+	defer s.mu.Unlock()
+	if !s.closed {
+		s.closed = true
+		close(s.in)
+	}
+	return nil
+}
+
+func (s *VerifC04Socket) recv(buf []byte) (int, error) {
+	f, ok := <-s.in
+	if !ok {
+		return 0, errors.New("verif socket closed")
+	}
+	return copy(buf, f), nil
+}
+
+func (s *VerifC04Socket) send(iface string, dstMAC net.HardwareAddr, etherType uint16, data []byte) error {
+	c := make([]byte, len(data))
+	copy(c, data)
+	s.mu.Lock()
+	s.out = append(s.out, c)
+	s.mu.Unlock()
+	return nil
+}
+
+// Inject queues one complete Ethernet frame for the server's receive loop.
+func (s *VerifC04Socket) Inject(frame []byte) {
+	c := make([]byte, len(frame))
+	copy(c, frame)
+	s.in <- c
+}
+
+// Drain returns (and forgets) the Ethernet frames the server has sent so far.
+func (s *VerifC04Socket) Drain() [][]byte {
+	s.mu.Lock()
+	defer s.mu.Unlock()
+	o := s.out
+	s.out = nil
+	return o
+}
+
+// Close closes the socket (recv then fails immediately).
+func (s *VerifC04Socket) Close() { _ = s.close() }
+
+// VerifC04SetSocket installs the socket Start() would have opened.
+func (s *Server) VerifC04SetSocket(sock *VerifC04Socket) { s.socket = sock }
+
+// VerifC04ReceiveLoop runs the real receive loop (Ethernet demultiplexing
+// included) until ctx is cancelled.
+func (s *Server) VerifC04ReceiveLoop(ctx context.Context) { s.receiveLoop(ctx) }
+
+// VerifC04CleanupLoop runs the real idle-session cleanup loop until ctx is cancelled.
+func (s *Server) VerifC04CleanupLoop(ctx context.Context) { s.cleanupLoop(ctx) }
+
+// VerifC04Sessions returns the server's session manager (its exported API is
+// used for snapshots).
+func (s *Server) VerifC04Sessions() *SessionManager { return s.sessions }
+
+// VerifC04Pool returns copies of the client pool's free list (in order) and of
+// its allocation map (RADIUS session id -> address); nil, nil without a pool.
+func (s *Server) VerifC04Pool() (available []string, allocated map[string]string) {
+	p := s.clientIPPool
+	if p == nil {
+		return nil, nil
+	}
+	available = make([]string, 0, len(p.available))
+	for _, ip := range p.available {
+		available = append(available, ip.String())
+	}
+	allocated = make(map[string]string, len(p.allocated))
+	for k, ip := range p.allocated {
+		allocated[k] = ip.String()
+	}
+	return available, allocated
+}
